@@ -119,6 +119,16 @@ def gen_pp_solution(rng, kind=None, pp_id=None, hostile=True, shuffle=False):
     pp_id = pp_id if pp_id is not None else rng.randint(0, 10 ** 5)
     traj, spec = gen_trajectory(rng, kind, uniq_base=pp_id % 97, hostile=hostile, shuffle=shuffle)
     pps = PlanningProblemSolution(pp_id, model, vtype, cost, traj)
+    if rng.random() < 0.15:
+        # the trajectory is a public attribute with a setter: the solution is first built with the OTHER admissible kind of
+        # trajectory for its vehicle model (state trajectory <-> input vector) and then given the one it shall have
+        other_kind = {"Input": model.name, "PMInput": "PM", "PM": "PMInput", "KS": "Input", "ST": "Input", "MB": "Input"}.get(kind)
+        if other_kind is not None:
+            traj0, _ = gen_trajectory(rng, other_kind, uniq_base=pp_id % 89, hostile=False)
+            pps = PlanningProblemSolution(pp_id, model, vtype, cost, traj0)
+            pps.trajectory = traj
+            return pps, {"kind": kind, "model": model.name, "vtype": vtype.name, "cost": cost.name, "pp_id": pp_id,
+                         "states": spec, "trajectory_reassigned_from": other_kind}
     return pps, {"kind": kind, "model": model.name, "vtype": vtype.name, "cost": cost.name, "pp_id": pp_id,
                  "states": spec}
 
